@@ -1177,7 +1177,12 @@ func runConcurrent(r *hx.Run) {
 	for i := 0; i < forcedN; i++ {
 		ops = append(ops, fmt.Sprintf("mforced aba %d", 300), fmt.Sprintf("mforced clone %d", 1000+200*i), fmt.Sprintf("mforced foreach %d", 1000+200*i), fmt.Sprintf("mforced foreachrev %d", 1000+200*i))
 	}
-	for i := 0; i < forcedN; i++ {
+	// a Replace of 20 000 .. 40 000 elements costs about 0.75 s under -race: the thorough tier runs 20 rounds, not 5 x Scale
+	overlapN := forcedN
+	if overlapN > 20 {
+		overlapN = 20
+	}
+	for i := 0; i < overlapN; i++ {
 		ops = append(ops, fmt.Sprintf("overlap del %d", 20000+5000*(i%5)), fmt.Sprintf("overlap add %d", 20000+5000*(i%5)))
 	}
 	for i := 0; i < forcedN; i++ {
